@@ -161,7 +161,7 @@ func (c *Ctx) ruleWriteDirtyBatch() {
 	}
 	c.doc("R-ORDER/batch", "WriteDirty: writeDirtyNode receives the batch created by NewBatch; Flush is reached only on the err == nil edge; Reset is called on the error edge (atomic write of a block's state)")
 	var batch ssa.Value
-	var wd, flush, reset *ssa.Call
+	var wds, flushes, resets []*ssa.Call
 	eachInstr(f, func(_ *ssa.BasicBlock, _ int, in ssa.Instruction) {
 		call, ok := in.(*ssa.Call)
 		if !ok {
@@ -171,39 +171,90 @@ func (c *Ctx) ruleWriteDirtyBatch() {
 		case call.Call.IsInvoke() && call.Call.Method.Name() == "NewBatch":
 			batch = call
 		case call.Call.IsInvoke() && call.Call.Method.Name() == "Flush":
-			flush = call
+			flushes = append(flushes, call)
 		case call.Call.IsInvoke() && call.Call.Method.Name() == "Reset":
-			reset = call
+			resets = append(resets, call)
 		case call.Call.StaticCallee() != nil && call.Call.StaticCallee().Name() == "writeDirtyNode":
-			wd = call
+			wds = append(wds, call)
 		}
 	})
-	usesBatch := false
-	if wd != nil && batch != nil {
+	usesBatch := len(wds) > 0 && batch != nil
+	for _, wd := range wds {
+		found := false
 		for v := range backwardSlice(wd.Call.Args[1], nil) {
 			if v == batch {
-				usesBatch = true
+				found = true
 			}
 		}
+		usesBatch = usesBatch && found
 	}
-	c.ob("R-ORDER/batch", "WriteDirty:writes-go-to-batch", f.Pos(), usesBatch, "writeDirtyNode must write into the batch returned by NewBatch (not directly into the database)")
-	errOK := func(call *ssa.Call, wantErr bool) bool {
-		if call == nil || wd == nil {
-			return false
-		}
-		return guardedBy(call.Block(), func(cond ssa.Value, truth bool) bool {
-			e, neq, ok := nilCmp(cond)
+	c.ob("R-ORDER/batch", "WriteDirty:writes-go-to-batch", f.Pos(), usesBatch, "every writeDirtyNode call must write into the batch returned by NewBatch (not directly into the database)")
+	// the failure successor of each writeDirtyNode call: the edge on which its error is non-nil
+	flushOK, resetOK := len(wds) > 0 && len(flushes) > 0, len(wds) > 0
+	for _, wd := range wds {
+		var errSucc *ssa.BasicBlock
+		for _, b := range f.Blocks {
+			iff := ifOf(b)
+			if iff == nil {
+				continue
+			}
+			e, neq, ok := nilCmp(iff.Cond)
 			if !ok {
-				return false
+				continue
 			}
-			if ex, ok := e.(*ssa.Extract); ok && ex.Tuple == ssa.Value(wd) {
-				return (truth == neq) == wantErr
+			if ex, isEx := e.(*ssa.Extract); isEx {
+				e = ex.Tuple
 			}
-			return e == ssa.Value(wd) && (truth == neq) == wantErr
-		})
+			if e != ssa.Value(wd) {
+				continue
+			}
+			if neq {
+				errSucc = b.Succs[0]
+			} else {
+				errSucc = b.Succs[1]
+			}
+		}
+		if errSucc == nil || len(errSucc.Instrs) == 0 {
+			flushOK, resetOK = false, false
+			continue
+		}
+		first := errSucc.Instrs[0]
+		for _, fl := range flushes {
+			if first == ssa.Instruction(fl) || instrReaches(first, fl) {
+				flushOK = false // Flush can run after a failed write
+			}
+		}
+		// every return reachable from the failure edge passes a Reset
+		for _, b := range f.Blocks {
+			if len(b.Instrs) == 0 {
+				continue
+			}
+			ret, isRet := b.Instrs[len(b.Instrs)-1].(*ssa.Return)
+			if !isRet || !(first == ssa.Instruction(ret) || instrReaches(first, ret)) {
+				continue
+			}
+			passes := false
+			for _, rs := range resets {
+				if first == ssa.Instruction(rs) || (instrReaches(first, rs) && !reachesAvoidingInstr(first, ret, rs)) {
+					passes = true
+				}
+			}
+			if !passes {
+				resetOK = false
+			}
+		}
 	}
-	c.ob("R-ORDER/batch", "WriteDirty:flush-on-success-only", f.Pos(), errOK(flush, false), "Flush must only run when writeDirtyNode returned no error")
-	c.ob("R-ORDER/batch", "WriteDirty:reset-on-error", f.Pos(), errOK(reset, true), "the batch must be Reset when writeDirtyNode fails")
+	// and Flush is not reachable without having passed every root-level write: the entry cannot reach it avoiding the first call
+	if flushOK && len(wds) > 0 {
+		entry := f.Blocks[0].Instrs[0]
+		for _, fl := range flushes {
+			if reachesAvoidingInstr(entry, fl, wds[0]) {
+				flushOK = false
+			}
+		}
+	}
+	c.ob("R-ORDER/batch", "WriteDirty:flush-on-success-only", f.Pos(), flushOK, "Flush must not be reachable from the failure edge of any writeDirtyNode call, nor without the root write")
+	c.ob("R-ORDER/batch", "WriteDirty:reset-on-error", f.Pos(), resetOK, "the batch must be Reset on every path from a failed writeDirtyNode call to a return")
 }
 
 var _ = token.ADD
